@@ -142,36 +142,7 @@ def run(ctx):
     if sorted(writers) != ["enter_ch_sequence_matching", "leave_ch_sequence_matching"]:
         r.violate("writers", "TagScanner.ch_sequence_matching_start is written by %s (expected only enter/leave_ch_sequence_matching)" % writers, "src/parser/tag_scanner/mod.rs")
 
-    # ---------------------------------------------------------------- R09.4
-    r = ctx.rule("R09.4", "TagScanner::get_consumed_byte_count returns input.len() when neither mark is set, else the smaller mark", "E-AST", floor=4)
-    f = sm_ms.get("get_consumed_byte_count")
-    if f is None:
-        raise EngineError("anchor: TagScanner::get_consumed_byte_count")
-    table = {}
-    for n in walk(f.node["body"]):
-        if n.get("k") == "Match":
-            sc = n["scrutinee"].get("s", "").replace(" ", "")
-            if sc != "(self.tag_start,self.ch_sequence_matching_start)":
-                r.violate("scrutinee", "get_consumed_byte_count no longer decides on (tag_start, ch_sequence_matching_start): " + sc, "src/parser/tag_scanner/mod.rs")
-            for arm in n["arms"]:
-                table[arm["pat"]["s"].replace(" ", "")] = arm["body"].get("s", "").replace(" ", "").strip("{}")
-    want = {
-        "(Some(tag_start),Some(ch_sequence_matching_start))": "min(tag_start,ch_sequence_matching_start)",
-        "(Some(tag_start),None)": "tag_start",
-        "(None,Some(ch_sequence_matching_start))": "ch_sequence_matching_start",
-        "(None,None)": "input.len()",
-    }
-    for k, v in want.items():
-        r.inst(k, sample={"pattern": k, "result": table.get(k)})
-        if table.get(k) != v:
-            r.violate(k, f"get_consumed_byte_count: case {k} yields {table.get(k)!r}, expected {v!r}", "src/parser/tag_scanner/mod.rs")
-    lx = impl_methods(idx, "Lexer", "StateMachine").get("get_consumed_byte_count")
-    if lx is None:
-        raise EngineError("anchor: Lexer::get_consumed_byte_count")
-    body = [s for s in lx.node["body"] if not (s.get("k") == "ExprStmt" and s["e"].get("k") == "Other")]
-    r.inst("lexer")
-    if len(body) != 1 or body[0]["e"].get("s", "").replace(" ", "") != "self.lexeme_start":
-        r.violate("lexer", "Lexer::get_consumed_byte_count no longer returns exactly lexeme_start (with handlers at most the single unfinished token is held back)", "src/parser/lexer/mod.rs")
+    rule_consumed_count(ctx, idx)
 
     # ------------------------------------------------------------------ R09.6
     r = ctx.rule("R09.6", "the dispatcher asks for end-tag lexemes on its own only while emission is disabled: in handle_end_tag_hint the NEXT_END_TAG capture flag is added under should_stop_removing_element_content(), which requires !emission_enabled; otherwise every end tag would be handed to the lexer and held back until its `>`", "E-MIR control dependence", floor=2)
@@ -235,3 +206,37 @@ def rule_seq_mark(ctx, aut, rid="R09.3"):
     for k in sorted(nseq):
         r.inst(k[0] + "|" + "".join(fmt_mask(m) for m in k[1]))
     return r, nseq
+
+
+def rule_consumed_count(ctx, idx, rid="R09.4"):
+    """finite-domain evaluation of the two get_consumed_byte_count bodies"""
+    from ..tagsem import Interp, Sym
+    r = ctx.rule(rid, "TagScanner::get_consumed_byte_count returns input.len() when neither mark is set, else the smaller mark; Lexer::get_consumed_byte_count returns lexeme_start (decision table over {unset, a<b, a>b, a=b} by abstract interpretation of the expanded source)", "E-AST (finite-domain abstract interpretation)", floor=10)
+    f = impl_methods(idx, "TagScanner", "StateMachine").get("get_consumed_byte_count")
+    if f is None:
+        raise EngineError("anchor: TagScanner::get_consumed_byte_count")
+    LEN = 9
+    it = Interp(idx, helpers={"min": lambda itp, args, env: min(args), ("method", "len"): lambda itp, rv, args, env: LEN,
+                              ("method", "min"): lambda itp, rv, args, env: min([rv] + list(args))})
+    for ts in (None, 3, 5, 4):
+        for sq in (None, 5, 3, 4):
+            key = "scanner|tag_start=%s|seq=%s" % (ts, sq)
+            want = LEN if ts is None and sq is None else min(x for x in (ts, sq) if x is not None)
+            try:
+                v = it.call_fn(f, [Sym("input")], self_env={"self.tag_start": ts, "self.ch_sequence_matching_start": sq})
+            except EngineError as e:
+                v = "not evaluable (%s)" % str(e)[:60]
+            r.inst(key, nontrivial=(ts is not None and sq is not None), sample={"tag_start": ts, "seq_start": sq, "consumed": v} if (ts, sq) in ((None, None), (5, 3), (3, 5)) else None)
+            if v != want:
+                r.violate(key, f"TagScanner::get_consumed_byte_count with tag_start={ts}, ch_sequence_matching_start={sq}, input.len()={LEN} yields {v}, expected {want}: bytes from the earlier mark on must stay buffered (otherwise they are released and the lexer later starts in the middle of a tag), and nothing else", "src/parser/tag_scanner/mod.rs")
+    lx = impl_methods(idx, "Lexer", "StateMachine").get("get_consumed_byte_count")
+    if lx is None:
+        raise EngineError("anchor: Lexer::get_consumed_byte_count")
+    r.inst("lexer")
+    try:
+        v = Interp(idx).call_fn(lx, [Sym("input")], self_env={"self.lexeme_start": 7})
+    except EngineError as e:
+        v = "not evaluable (%s)" % str(e)[:60]
+    if v != 7:
+        r.violate("lexer", f"Lexer::get_consumed_byte_count yields {v} for lexeme_start=7: with handlers exactly the unfinished token must be held back", "src/parser/lexer/mod.rs")
+    return r
